@@ -98,3 +98,17 @@ Theorem concurrent_lost_transaction_refuted :
   txs_at (serial_run f12_env f12_tx_store [f12_tx_delivery 2; f12_tx_delivery 3]) (owner_key 1)
     = [f12_tx 3; f12_tx 2; f12_tx 1].
 Proof. exact concurrent_lost_transaction_refuted_lemma. Qed.
+
+(* --- the put -> ack window: a register delivered again before its first write is acknowledged
+       (serial deliveries; known class register-overwritten-before-ack, same root cause as F12) --- *)
+Theorem register_overwritten_before_ack_refuted :
+  reg_ops_at (fst (sched_run f12_env [] [win_delivery 2; win_delivery 3] (win_block 0 ++ win_block 1))) (reg_key 1 1)
+    = [win_op 3] /\
+  reg_ops_at (fst (sched_run f12_env [] [win_delivery 2; win_delivery 3] (win_block 0 ++ [TAck] ++ win_block 1))) (reg_key 1 1)
+    = [win_op 2; win_op 3] /\
+  reg_ops_at (serial_run f12_env [] [win_delivery 2; win_delivery 3]) (reg_key 1 1) = [win_op 2; win_op 3] /\
+  (let '(st, ds) := fold_left sched_step (win_block 0) ([], map (dinit f12_env) [win_delivery 2; win_delivery 3]) in
+   match ds with d0 :: _ => ds_phase d0 = DDone /\ ds_outbox d0 = [] /\ get st (reg_key 1 1) = Some (SReg (win_reg [win_op 2]))
+                            /\ listed st (reg_key 1 1) = false
+            | [] => False end).
+Proof. exact register_overwritten_before_ack_refuted_lemma. Qed.
